@@ -189,16 +189,37 @@ func run(r *h.Run, sc scenario) result {
 	}
 
 	// stored-session model for session-present
+	// The model follows what the broker did, not what the peer saw: a connect
+	// changes the stored session as soon as the backend's Setup succeeded for it,
+	// also when the CONNACK was lost to a fault; a CONNECT the broker never
+	// received changes nothing.
 	storedModel := false
-	checkSP := func(ca *packet.Connack, clean bool, which string) {
-		if ca == nil {
-			return
+	setupDone := func(p *bh.Peer, ca *packet.Connack) bool {
+		if ca != nil {
+			return true
 		}
-		want := !clean && storedModel
-		if ca.SessionPresent != want {
-			fail("session-present", fmt.Sprintf("%s (clean=%t): CONNACK session-present=%t, expected %t", which, clean, ca.SessionPresent, want))
+		// no CONNACK: let the broker-side client finish before asking
+		p.Close()
+		if !b.WaitClosed(p.Name, bh.Watchdog) {
+			return false
 		}
-		storedModel = !clean
+		if ci := b.ClientOf(p.Name); ci != nil {
+			return b.Mon.Snapshot(ci).SetupOK
+		}
+		return false
+	}
+	checkSP := func(p *bh.Peer, ca *packet.Connack, clean bool, which string) bool {
+		done := setupDone(p, ca)
+		if ca != nil {
+			want := !clean && storedModel
+			if ca.SessionPresent != want {
+				fail("session-present", fmt.Sprintf("%s (clean=%t): CONNACK session-present=%t, expected %t", which, clean, ca.SessionPresent, want))
+			}
+		}
+		if done {
+			storedModel = !clean
+		}
+		return done
 	}
 
 	// ---- phase 0/1: subscribe, publish online
@@ -206,7 +227,7 @@ func run(r *h.Run, sc scenario) result {
 	if res.inconclusive != "" {
 		return res
 	}
-	checkSP(ca0, false, "first connect")
+	checkSP(s0, ca0, false, "first connect")
 	subscribed := false
 	if ca0 != nil && !s0.EOF() {
 		_ = s0.Send(&packet.Subscribe{ID: 1, Subscriptions: []packet.Subscription{{Topic: "t/#", QOS: 2}}})
@@ -259,7 +280,13 @@ func run(r *h.Run, sc scenario) result {
 	if res.inconclusive != "" {
 		return res
 	}
-	checkSP(ca1, sc.Clean2, "second connect")
+	if done1 := checkSP(s1, ca1, sc.Clean2, "second connect"); sc.Clean2 && !done1 {
+		// the fault kept the clean CONNECT from reaching the backend: nothing was
+		// discarded and the scenario's later phases do not apply
+		r.Count("clean_connect_never_set_up", 1)
+		collect(&res, conns)
+		return res
+	}
 	if sc.Clean2 {
 		accepted = accepted[:firstAccepted] // subscription and queue are discarded
 		if ca1 != nil && !s1.EOF() {
@@ -297,7 +324,7 @@ func run(r *h.Run, sc scenario) result {
 		if res.inconclusive != "" {
 			return res
 		}
-		checkSP(ca2, false, "third connect")
+		checkSP(s2, ca2, false, "third connect")
 		if ca2 != nil && !s2.EOF() {
 			if err := bh.Ping(s2); err == bh.ErrTimeout {
 				res.inconclusive = "PINGRESP watchdog (after clean)"
@@ -323,7 +350,7 @@ func run(r *h.Run, sc scenario) result {
 		if res.inconclusive != "" {
 			return res
 		}
-		checkSP(ca2, false, "resume")
+		checkSP(s2, ca2, false, "resume")
 		if ca2 != nil && !s2.EOF() {
 			break
 		}
